@@ -19,12 +19,24 @@ use std::{fmt, hash::Hash};
 //
 // requirements:
 // - values must be immutable
-#[derive(Default, Clone)]
+#[derive(Default)]
 pub struct IdSet<T: Hash + Eq> {
     map: HashMap<Ptr<T>, u32>,
     current_buf: Vec<T>, // TODO: instead of using Vec<T> for a buffer, maybe use a [MaybeUninit<T>], or even a raw buffer of bytes...
     old_bufs: Vec<Vec<T>>,
     id_to_ptr: Vec<*mut T>,
+}
+
+// A derived Clone would copy the raw pointers in `map` and `id_to_ptr`, which point into the
+// original's buffers. Re-inserting in iteration order gives the clone its own storage and the same ids.
+impl<T: Hash + Eq + Clone> Clone for IdSet<T> {
+    fn clone(&self) -> Self {
+        let mut new = Self::new();
+        for value in self.iter() {
+            new.insert(value.clone());
+        }
+        new
+    }
 }
 
 /// wrapper around *const T w
